@@ -2,8 +2,8 @@
    datatype. Mirrors command/{model,parse,help,autocomplete}.rs and group/mod.rs. *)
 From EC Require Import Base Generated.Codes Model.Utils Model.Args Model.Writer Model.Cli.
 
-Inductive aty := TStr | TU8 | TBool | TChar.
-Inductive value := VStr (s : list N) | VNum (n : N) | VBool (b : bool) | VChr (c : N).
+Inductive aty := TStr | TU8 | TBool | TChar | TInt (signed : bool) (bits : N).   (* TInt: i8 u16 i16 u32 i32 ... *)
+Inductive value := VStr (s : list N) | VNum (n : N) | VBool (b : bool) | VChr (c : N) | VInt (neg : bool) (n : N).
 Inductive akind := KPos | KOpt (long : option (list N)) (short : option N) | KFlag (long : option (list N)) (short : option N).
 Inductive adefault := DNone | DStr (s : list N) | DVal (v : value).
 Record argdecl := {
@@ -52,11 +52,33 @@ Definition conv (t : aty) (s : list N) : option value :=
              | Some (Some (c, [])) => Some (VChr c)
              | _ => None
              end
+  | TInt sg bits =>
+    (* core::num from_str_radix(10): one optional sign (`-` only for signed types), at least one digit, digits only, range checked *)
+    let '(neg, ds) := match s with
+                      | 43 :: r => (false, r)
+                      | 45 :: r => if sg then (true, r) else (false, s)
+                      | _ => (false, s)
+                      end in
+    match ds with
+    | [] => None
+    | _ => match parse_dec 0 ds with
+           | None => None
+           | Some n =>
+             if neg then (if n <=? 2 ^ (bits - 1) then Some (VInt (negb (n =? 0)) n) else None)
+             else if n <? (if sg then 2 ^ (bits - 1) else 2 ^ bits) then Some (VInt false n) else None
+           end
+    end
+  end.
+Fixpoint dec_digits (fuel : nat) (n : N) (acc : list N) : list N :=
+  match fuel with
+  | O => acc
+  | S f => if n <? 10 then (48 + n) :: acc else dec_digits f (n / 10) ((48 + n mod 10) :: acc)
   end.
 Definition ty_name (t : aty) : list N :=
-  match t with TStr => [38;115;116;114] | TU8 => [117;56] | TBool => [98;111;111;108] | TChar => [99;104;97;114] end.
+  match t with TStr => [38;115;116;114] | TU8 => [117;56] | TBool => [98;111;111;108] | TChar => [99;104;97;114]
+  | TInt sg bits => (if sg then 105 else 117) :: dec_digits 4 bits [] end.
 Definition ty_default (t : aty) : value :=
-  match t with TStr => VStr [] | TU8 => VNum 0 | TBool => VBool false | TChar => VChr 0 end.
+  match t with TStr => VStr [] | TU8 => VNum 0 | TBool => VBool false | TChar => VChr 0 | TInt _ _ => VInt false 0 end.
 
 (* ---- names used in usage / errors (CommandArg::full_name) *)
 Definition opt_prefix (long : option (list N)) (short : option N) : list N :=
